@@ -97,6 +97,7 @@ func cliArgs(sc *core.Scenario, path string) []string {
 }
 
 func runCLI(sc *core.Scenario, s core.Schedule, path string) cliOut {
+	core.HeartbeatNow()
 	core.InstallSchedule(&s)
 	simos.Reset(wd(), nil, 1)
 	simos.SetStdin(strings.NewReader(""))
